@@ -34,6 +34,8 @@ pub struct Scenario {
     pub ttr: Option<u32>,
     pub divs: Vec<i64>,
     pub phases: Vec<i64>,
+    /// PHY model: stations deaf while transmitting
+    pub deaf: bool,
     pub loads: Vec<Load>,
     /// (station index, join time in units of R after the others have converged); empty = all at t=0
     pub late: Vec<(usize, i64)>,
@@ -42,21 +44,21 @@ pub struct Scenario {
 
 impl Scenario {
     pub fn to_json(&self) -> Value {
-        json!({"addrs": self.addrs, "hsa": self.hsa, "gap": self.gap, "baud": self.baud, "slot_bits": self.slot_bits, "ttr": self.ttr, "divs": self.divs, "phases": self.phases,
+        json!({"addrs": self.addrs, "hsa": self.hsa, "gap": self.gap, "baud": self.baud, "slot_bits": self.slot_bits, "ttr": self.ttr, "divs": self.divs, "phases": self.phases, "deaf": self.deaf,
             "loads": self.loads.iter().map(|l| format!("{:?}", l)).collect::<Vec<_>>(), "late": self.late, "responders": self.responders})
     }
     pub fn from_json(v: &Value) -> Scenario {
         let u8s = |x: &Value| -> Vec<u8> { x.as_array().unwrap().iter().map(|y| y.as_u64().unwrap() as u8).collect() };
         let i64s = |x: &Value| -> Vec<i64> { x.as_array().unwrap().iter().map(|y| y.as_i64().unwrap()).collect() };
         let load = |s: &str| -> Load {
-            if s == "None" { Load::None } else if s == "SdnAlways" { Load::SdnAlways } else if s == "SdnLong" { Load::SdnLong } else {
+            if s == "None" { Load::None } else if s == "SdnAlways" { Load::SdnAlways } else if s == "SdnLong" { Load::SdnLong } else if s == "SdnLowOnly" { Load::SdnLowOnly } else {
                 let n: u8 = s.trim_end_matches(')').split('(').nth(1).unwrap().parse().unwrap();
                 if s.starts_with("SrdAlways") { Load::SrdAlways(n) } else { Load::SrdEvery3(n) }
             }
         };
         Scenario {
             addrs: u8s(&v["addrs"]), hsa: v["hsa"].as_u64().unwrap() as u8, gap: v["gap"].as_u64().unwrap() as u8, baud: v["baud"].as_u64().unwrap() as usize,
-            slot_bits: v["slot_bits"].as_u64().unwrap() as u16, ttr: v["ttr"].as_u64().map(|x| x as u32), divs: i64s(&v["divs"]), phases: i64s(&v["phases"]),
+            slot_bits: v["slot_bits"].as_u64().unwrap() as u16, ttr: v["ttr"].as_u64().map(|x| x as u32), divs: i64s(&v["divs"]), phases: i64s(&v["phases"]), deaf: v["deaf"].as_bool().unwrap_or(false),
             loads: v["loads"].as_array().unwrap().iter().map(|l| load(l.as_str().unwrap())).collect(),
             late: v["late"].as_array().unwrap().iter().map(|x| (x[0].as_u64().unwrap() as usize, x[1].as_i64().unwrap())).collect(),
             responders: v["responders"].as_array().unwrap().iter().map(|x| (x[0].as_u64().unwrap() as u8, x[1].as_u64().unwrap() as u32)).collect(),
@@ -87,6 +89,7 @@ impl Scenario {
             responders: self.responders.clone(),
             horizon_us: converge_by + stab,
             converge_by_us: converge_by,
+            deaf_phy: self.deaf,
         }
     }
     /// inside the latency envelope of DESIGN 5.5: 3*P_max + 44 bit + one poll of the passer < Tslot
@@ -173,7 +176,7 @@ pub fn scenario_set(tier: Tier, with_loads: bool) -> Vec<Scenario> {
                                         // target rotation time: builder default (HSA*5000 bit) and the builder minimum
                                         let ttrs: Vec<Option<u32>> = if late.is_empty() && gap == 1 && (baud == 1 || tier == Tier::Thorough) { vec![None, Some(256)] } else { vec![None] };
                                         for ttr in ttrs {
-                                            v.push(Scenario { addrs: addrs.clone(), hsa, gap, baud, slot_bits, ttr, divs: divs.clone(), phases: phases.clone(), loads: load.clone(), late: late.clone(), responders: vec![(40, 0)] });
+                                            v.push(Scenario { addrs: addrs.clone(), hsa, gap, baud, slot_bits, ttr, divs: divs.clone(), phases: phases.clone(), deaf: false, loads: load.clone(), late: late.clone(), responders: vec![(40, 0)] });
                                         }
                                     }
                                 }
@@ -600,6 +603,19 @@ pub fn replay_c06(r: &Value) {
                 run.bus.faults.push((n + d, parse_fault(job["fault2"].as_str().unwrap())));
                 while run.bus.tx_count <= n + d && !run.done() { run.step(); }
             }
+            "crash+fault" => {
+                let t = job["t_us"].as_i64().unwrap();
+                let i = job["station"].as_u64().unwrap() as usize;
+                loop {
+                    let (pi, pt) = run.peek();
+                    if pt >= t && pi == i { break; }
+                    run.step();
+                }
+                run.crashed[i] = true;
+                let n = run.bus.tx_count + job["d"].as_u64().unwrap() as usize;
+                run.bus.faults.push((n, parse_fault(job["fault2"].as_str().unwrap())));
+                while run.bus.tx_count <= n && !run.done() && run.now < t + 10_000_000 { run.step(); }
+            }
             "garble" => {
                 let k = job["k"].as_u64().unwrap() as usize;
                 for j in 0..3 { run.bus.faults.push((first_tx + k + j, Fault::Garble)); }
@@ -692,8 +708,8 @@ pub fn c13_check(run: &W3Run, sc: &Scenario) -> Result<(), (String, String)> {
             match f {
                 // (a station that is alone in the ring passes the token to itself: that is its receipt)
                 Some(crate::refcodec::RFrame::Token { da, sa: tsa }) if *da == a && (*tsa != a || n == 1) => {
-                    // a repeated pass is not a new receipt
-                    if receipts.last().map(|r| e - r > slot / 2).unwrap_or(true) {
+                    // a repeated pass is not a new receipt (a lone station's passes to itself are never repeats)
+                    if n == 1 || receipts.last().map(|r| e - r > slot / 2).unwrap_or(true) {
                         receipts.push(*e);
                         visits.push((*e, vec![]));
                     }
@@ -721,6 +737,32 @@ pub fn c13_check(run: &W3Run, sc: &Scenario) -> Result<(), (String, String)> {
             let late: Vec<i64> = reqs.iter().filter(|(s, gap)| !*gap && *s > deadline).map(|x| x.0).collect();
             if late.len() > 1 {
                 return Err(("c13.message_cycles_after_hold_time".into(), format!("#{a}: {} application requests started after the hold time was over (visit at t={}us, previous receipt {}us, TTR {} bits)", late.len(), r_cur / rate, r_prev / rate, ttr_bits)));
+            }
+        }
+        // rule 4: ordinary (low-priority) traffic is not starved either: in a visit without a GAP poll (no
+        // time is reserved for one) whose token came back well within the target rotation time, the
+        // application is offered an ordinary message cycle
+        if !matches!(st.load, Load::None) {
+            let calls: Vec<i64> = run.apps[i].normal_calls.iter().map(|t| t * rate).collect();
+            for w in visits.windows(3) {
+                let (r_prev, reqs_prev) = &w[0];
+                let (r_cur, reqs) = &w[1];
+                let (r_next, _) = &w[2];
+                if *r_cur < from || calls.first().map(|c| *c > *r_cur).unwrap_or(true) {
+                    continue;
+                }
+                // (the visit in which a sweep finds the end of the GAP still carries the reserve although no
+                // poll is sent any more: only visits whose predecessor had no poll either are judged)
+                let has_gap_poll = reqs.iter().any(|(_, gap)| *gap) || reqs_prev.iter().any(|(_, gap)| *gap);
+                // margin: the station measures from the START of the previous token telegram, asks the application
+                // only after the 33-bit pause, on its poll grid, and a poll may be stalled by Tslot/4
+                if !has_gap_poll && r_cur - r_prev + 2 * pmax + slot / 4 + 120 * bit < ttr {
+                    let offered = calls.iter().any(|c| *c >= *r_cur - pmax && *c < *r_next);
+                    if !offered {
+                        return Err(("c13.ordinary_traffic_starved".into(), format!("#{a}: token back after {} bit times (TTR {} bits), no GAP poll in the visit at t={}us, but the application was not offered an ordinary message cycle", (r_cur - r_prev) / bit, ttr_bits, r_cur / rate)));
+                    }
+                    ctx().witness("c13_ordinary_cycle_offered_in_early_visit");
+                }
             }
         }
         // rule 3: no starvation — the application is asked at least once per visit
@@ -752,6 +794,7 @@ pub fn run_c13(tier: Tier) -> ! {
         vec![Load::SrdEvery3(40), Load::SdnAlways],
         vec![Load::SdnAlways, Load::None],
         vec![Load::None, Load::SrdAlways(42), Load::SdnAlways],
+        vec![Load::SdnLowOnly],
     ];
     for addrs in &sets {
         for load in &loads {
@@ -768,7 +811,7 @@ pub fn run_c13(tier: Tier) -> ! {
                             if phases.len() == 1 && (addrs.len() == 1 || (tier == Tier::Quick && ttr != Some(256))) {
                                 continue;
                             }
-                            let mut sc = Scenario { addrs: addrs.clone(), hsa: 6, gap: 1, baud: 1, slot_bits, ttr, divs: divs.clone(), phases, loads: load.clone(), late: vec![], responders: vec![(40, 11), (41, slot_bits as u32 - 33), (42, 0)] };
+                            let mut sc = Scenario { addrs: addrs.clone(), hsa: 6, gap: 1, baud: 1, slot_bits, ttr, divs: divs.clone(), phases, deaf: false, loads: load.clone(), late: vec![], responders: vec![(40, 11), (41, slot_bits as u32 - 33), (42, 0)] };
                             if !sc.inside_envelope() {
                                 continue;
                             }
@@ -916,7 +959,7 @@ fn c06_finish(run: &mut W3Run, sc: &Scenario, t_fault: i64, what: &str, tally: &
             let views: Vec<String> = (0..sc.addrs.len()).map(|i| format!("#{}:{:?}", sc.addrs[i], run.view(i))).collect();
             ctx().violation(
                 sig,
-                format!("{detail} [after {what}; stations {:?} HSA {} slot {} divs {:?}; now={}us horizon={}us; last telegrams: {:?}; views: {:?}]", sc.addrs, sc.hsa, sc.slot_bits, sc.divs, run.now, run.horizon_us, tail, views),
+                format!("{detail} [after {what}; stations {:?} HSA {} slot {} divs {:?} phases {:?} PHY {}; now={}us horizon={}us; last telegrams: {:?}; views: {:?}]", sc.addrs, sc.hsa, sc.slot_bits, sc.divs, sc.phases, if sc.deaf { "deaf while transmitting" } else { "hears collisions" }, run.now, run.horizon_us, tail, views),
                 json!({"world":"w3-fault","scenario": sc.to_json(), "disturbance": what, "job": job}),
                 (sc.addrs.len() * 10) as u64,
             );
@@ -943,9 +986,32 @@ pub fn run_c06(tier: Tier) -> ! {
                 if tier == Tier::Quick && phases[1] == 0 && load == Load::None && addrs.len() == 2 {
                     continue;
                 }
-                scenarios.push(Scenario { addrs: addrs.clone(), hsa: *hsa, gap: *gap, baud: 1, slot_bits: 300, ttr: if load == Load::None { None } else { Some(1500) }, divs: divs.clone(), phases: phases.clone(), loads: vec![load], late: vec![], responders: vec![] });
+                // both PHY models: a transmitting station hears colliding bytes corrupted / does not hear them
+                // at all (receiver off while the driver is on — the usual RS-485 wiring)
+                for deaf in [false, true] {
+                    if tier == Tier::Quick && deaf && load != Load::None && addrs.len() > 3 {
+                        continue;
+                    }
+                    scenarios.push(Scenario { addrs: addrs.clone(), hsa: *hsa, gap: *gap, baud: 1, slot_bits: 300, ttr: if load == Load::None { None } else { Some(1500) }, divs: divs.clone(), phases: phases.clone(), deaf, loads: vec![load], late: vec![], responders: vec![] });
+                }
             }
         }
+    }
+    if tier == Tier::Thorough {
+        // short slot time and a fine poll grid (Tslot/52 = 100 µs at 19.2 kbit/s), HSA 10
+        for deaf in [false, true] {
+            for phases in [vec![0i64, 0, 0], vec![0, 1, 2]] {
+                for gap in [1u8, 2] {
+                    scenarios.push(Scenario { addrs: vec![0, 3, 7], hsa: 10, gap, baud: 1, slot_bits: 100, ttr: None, divs: vec![52], phases: phases.clone(), deaf, loads: vec![Load::None], late: vec![], responders: vec![] });
+                }
+            }
+        }
+    }
+    if let Ok(x) = std::env::var("PBMC_C06_EXPERIMENT") {
+        // (development aid) only the scenarios of an experiment: "addrs;hsa;slot;div"
+        let f: Vec<&str> = x.split(';').collect();
+        let addrs: Vec<u8> = f[0].split(',').map(|a| a.parse().unwrap()).collect();
+        scenarios = vec![Scenario { addrs, hsa: f[1].parse().unwrap(), gap: f.get(4).map(|g| g.parse().unwrap()).unwrap_or(1), baud: 1, slot_bits: f[2].parse().unwrap(), ttr: None, divs: vec![f[3].parse().unwrap()], phases: if f.get(6) == Some(&"s") { vec![0, 1, 2] } else { vec![0, 0, 0] }, deaf: f.get(5).map(|d| *d == "1").unwrap_or(false), loads: vec![Load::None], late: vec![], responders: vec![] }];
     }
     let tally = Tally::new();
     scenarios.par_iter().for_each(|sc| {
@@ -1098,12 +1164,35 @@ pub fn run_c06(tier: Tier) -> ! {
                 c06_finish(&mut run, sc, t_fault, &format!("crash of #{} at t={}us variant {}", sc.addrs[*i], t, variant), &tally, json!({"kind":"crash","station": i, "t_us": t, "variant": variant, "partial": partial}));
             }
         });
+        // a crash (station gone for good, before its poll) FOLLOWED by a telegram fault: one of the next eight
+        // telegrams of the survivors is dropped or cut to 1 or 2 bytes while they are sorting the ring out
+        // (rings of three and more on the Tslot/16 schedules; quick: one scenario, every sixth crash point)
+        let crash_then_fault = std::env::var("PBMC_C06_EXPERIMENT").is_ok() || sc.addrs.len() >= 3 && sc.divs == vec![16] && sc.ttr.is_none() && (tier == Tier::Thorough || (sc.addrs == vec![0, 3, 5] && sc.phases == vec![0, 0, 0]));
+        if crash_then_fault {
+            let stride2 = if std::env::var("PBMC_C06_EXPERIMENT").is_ok() { 1 } else { tier.pick(6usize, 2) };
+            crash_jobs.par_iter().step_by(stride2).for_each(|(snap, i, t)| {
+                for d in 0..8usize {
+                    for f2 in [Fault::Truncate(2), Fault::Truncate(1), Fault::Drop] {
+                        let mut run = snap.clone();
+                        run.crashed[*i] = true;
+                        let n = run.bus.tx_count + d;
+                        run.bus.faults.push((n, f2.clone()));
+                        while run.bus.tx_count <= n && !run.done() && run.now < t + window_us {
+                            run.step();
+                        }
+                        let t_fault = run.now;
+                        ctx().witness("c06_crash_then_fault_episode");
+                        c06_finish(&mut run, sc, t_fault, &format!("crash of #{} at t={}us, then {:?} of the telegram {} later", sc.addrs[*i], t, f2, d), &tally, json!({"kind":"crash+fault","station": i, "t_us": t, "d": d, "fault2": format!("{:?}", f2)}));
+                    }
+                }
+            });
+        }
     });
     // cold-start claim race: two stations whose silence time-outs expire at (almost) the same instant
     let races: Vec<(Vec<u8>, u8)> = vec![(vec![1, 2], 6), (vec![0, 3], 6), (vec![2, 4, 5], 6)];
     races.par_iter().for_each(|(addrs, hsa)| {
         for off_q in tier.pick(vec![0i64, 2], vec![-2, -1, 0, 1, 2, 3]) {
-            let sc = Scenario { addrs: addrs.clone(), hsa: *hsa, gap: 1, baud: 1, slot_bits: 300, ttr: None, divs: vec![16], phases: vec![0, 1, 2], loads: vec![Load::None], late: vec![], responders: vec![] };
+            let sc = Scenario { addrs: addrs.clone(), hsa: *hsa, gap: 1, baud: 1, slot_bits: 300, ttr: None, divs: vec![16], phases: vec![0, 1, 2], deaf: false, loads: vec![Load::None], late: vec![], responders: vec![] };
             let mut cfg = sc.build();
             let slot_us = cfg.slot_us();
             // station 0 (lowest address) joins later by exactly the difference of the time-outs
@@ -1138,7 +1227,7 @@ pub fn run_c06(tier: Tier) -> ! {
     ev.distinct_outcomes = outcomes.len() as u64;
     ev.extra.insert("outcomes".into(), json!(outcomes));
     ev.required_witnesses = vec!["c06_recovered", "c06_partial_telegram_left_on_bus"];
-    ev.assumptions.push("collisions are modelled as corrupted bytes (BusSim); a station that took itself offline after two address-collision observations is not 'online'".into());
+    ev.assumptions.push("collisions are modelled as corrupted bytes for everybody who listens; both PHY models are run: a transmitting station hears the colliding bytes corrupted / does not hear them at all; a station that took itself offline after two address-collision observations is not 'online'".into());
     finish(ev)
 }
 
@@ -1154,7 +1243,7 @@ pub fn c11_forged_offers(tier: Tier) -> (u64, u64) {
     let polls = AtomicU64::new(0);
     sets.par_iter().for_each(|(addrs, hsa)| {
         for divs in tier.pick(vec![vec![16i64]], vec![vec![16], vec![4], vec![16, 4]]) {
-            let sc = Scenario { addrs: addrs.clone(), hsa: *hsa, gap: 1, baud: 1, slot_bits: 300, ttr: None, divs: divs.clone(), phases: vec![0, 1, 2], loads: vec![Load::None], late: vec![], responders: vec![] };
+            let sc = Scenario { addrs: addrs.clone(), hsa: *hsa, gap: 1, baud: 1, slot_bits: 300, ttr: None, divs: divs.clone(), phases: vec![0, 1, 2], deaf: false, loads: vec![Load::None], late: vec![], responders: vec![] };
             let cfg = Arc::new(sc.build());
             let mut base = W3Run::new(&cfg);
             while base.now < cfg.converge_by_us && base.panic.is_none() {
